@@ -127,7 +127,7 @@ impl Run {
             let store = Arc::new(Mutex::new(st));
             let melda = Melda::new(new_adapter(&store)).expect("open on empty storage");
             run.stores.push(store.clone());
-            run.reps.push(Some(Replica { name: rname(r), melda, store, order_memo: HashMap::new() }));
+            run.reps.push(Some(Replica { name: rname(r), melda, store, order_memo: HashMap::new(), root: None }));
         }
         run
     }
@@ -158,7 +158,7 @@ impl Run {
         let res = catch_unwind(AssertUnwindSafe(|| {
             match p.install(|| Melda::new(new_adapter(&store))) {
                 Ok(m) => {
-                    let mut rep = Replica { name: "fresh".into(), melda: m, store: store.clone(), order_memo: HashMap::new() };
+                    let mut rep = Replica { name: "fresh".into(), melda: m, store: store.clone(), order_memo: HashMap::new(), root: None };
                     let mut t = tables.lock().unwrap_or_else(|e| e.into_inner());
                     let mut o = observe(&mut t, &mut rep, full);
                     o["open"] = json!("ok");
@@ -319,12 +319,27 @@ impl Run {
                         }
                     }
                 };
+                let mut doc = doc;
+                if name == "edit" {
+                    // the user occasionally switches to / from a custom root identifier
+                    let mut p2 = Prng::new(op["seed"].as_u64().unwrap_or(0) ^ 0x5EED);
+                    let cur = self.reps[r].as_ref().unwrap().root.clone();
+                    let next = if p2.chance(1, 25) { if cur.is_some() { None } else { Some(crate::obs::CUSTOM_ROOT.to_string()) } } else { cur };
+                    doc.remove("_id");
+                    if let Some(id) = &next {
+                        doc.insert("_id".to_string(), Value::from(id.clone()));
+                    }
+                }
+                let newroot = doc.get("_id").and_then(|v| v.as_str()).map(|s| s.to_string());
                 self.last_doc.insert(r, doc.clone());
                 let sub = docproj_json(&project_doc(&doc));
                 let twice = op.get("twice").and_then(|v| v.as_bool()).unwrap_or(false);
                 let m = &self.reps[r].as_ref().unwrap().melda;
                 let d2 = doc.clone();
                 let out = call(pool, || m.update(d2), |s| json!(tok(s)));
+                if out.kind == "ok" {
+                    self.reps[r].as_mut().unwrap().root = newroot.clone();
+                }
                 self.emit("Update", r, json!({"doc": Value::from(doc.clone()).to_string()}), &out, json!({"sub": sub}));
                 if twice && !self.dead {
                     let m = &self.reps[r].as_ref().unwrap().melda;
@@ -527,7 +542,7 @@ impl Run {
                 }
                 match opened {
                     Some(m) => {
-                        self.reps[r] = Some(Replica { name: rname(r), melda: m, store, order_memo: HashMap::new() });
+                        self.reps[r] = Some(Replica { name: rname(r), melda: m, store, order_memo: HashMap::new(), root: None });
                         self.emit("Open", r, json!({}), &out, json!({}));
                     }
                     None => {
